@@ -120,6 +120,7 @@ PROPS = {
             regress("C08"),
             {"run": "^TestRefSelf$", "quick": 300, "thorough": 3000, "single": True},
             {"run": "^TestC08$", "quick": 300, "thorough": 800},
+            {"run": "^TestC08Large$", "quick": 1, "thorough": 1, "rapid": False},
         ],
     },
     "C09": {
